@@ -283,5 +283,55 @@ func propSpecs() map[string]*PropSpec {
 	}
 	cm(c09, "H_C09_quote", 0, 4, "quote clause, tab-free F(4)", "thorough")
 	add(c09)
+
+	// ---- C11
+	c11 := &PropSpec{ID: "C11", Level: "model_checking", Assumptions: append([]string{"inputs are single paragraphs built from units: '*', '_', an ASCII letter/digit (symbolic), space, an ASCII punctuation byte from #$%()+,-./:;=?@^{|}~ (symbolic), and (second bound) U+00A0, U+2014, U+00E9; unit sequences that Parse does not read as exactly one paragraph are excluded (assume)", "the reference is the spec's process-emphasis procedure without openers_bottom, validated during design on 108 of the spec's emphasis examples"}, commonAssumptions...), QuickSec: 170, ThoroughSec: 1500,
+		Explanation: "bounded symbolic execution of Parse+Render on every unit sequence up to the bound (unit classes are solver-enumerated, bytes within a class symbolic), compared byte for byte with the output of a transcription of the spec's delimiter-run algorithm"}
+	for n := int64(1); n <= 6; n++ {
+		cm(c11, "H_C11", n, 5, fmt.Sprintf("all sequences of %d units over the 5 ASCII classes", n), "quick")
+	}
+	for n := int64(1); n <= 5; n++ {
+		cm(c11, "H_C11", n, 8, fmt.Sprintf("all sequences of %d units over 8 classes (incl. NBSP, EM DASH, e-acute)", n), "quick")
+	}
+	cm(c11, "H_C11", 7, 5, "all sequences of 7 units over the 5 ASCII classes", "thorough")
+	cm(c11, "H_C11", 6, 8, "all sequences of 6 units over 8 classes", "thorough")
+	cm(c11, "H_C11", 8, 5, "all sequences of 8 units over the 5 ASCII classes", "thorough")
+	add(c11)
+
+	// ---- C12
+	c12 := &PropSpec{ID: "C12", Level: "model_checking", Assumptions: append([]string{"label alphabet {a, A, s, k, U+00DF, U+1E9E, U+212A, space, tab, LF, U+00A0, escaped ]} with case folding written out from CaseFolding.txt; case folding of other code points is trusted to golang.org/x/text", "at most one line ending per label (two could form a blank line)"}, commonAssumptions...), QuickSec: 170, ThoroughSec: 1500,
+		Explanation: "bounded symbolic execution of Parse on use/definition documents whose labels are solver-chosen unit sequences; resolves <=> reference-normalised labels equal; first-definition-wins over all orders and container placements; closure clauses (link keys in map, keys normalised, map equals fresh Extract) on F(n) and link templates"}
+	for _, k := range [][2]int64{{1, 1}, {2, 1}, {1, 2}, {2, 2}} {
+		cm(c12, "H_C12_norm", k[0], k[1], fmt.Sprintf("labels of %d and %d units over a 12-member alphabet", k[0], k[1]), "quick")
+	}
+	cm(c12, "H_C12_norm", 3, 2, "labels of 3 and 2 units", "thorough")
+	cm(c12, "H_C12_norm", 2, 3, "labels of 2 and 3 units", "thorough")
+	for o := int64(0); o < 6; o++ {
+		cm(c12, "H_C12_first", o, 0, fmt.Sprintf("order %d of (def1, def2, use) x 5^3 label variants x 3^3 container placements", o), "quick")
+	}
+	for n := int64(1); n <= 3; n++ {
+		cm(c12, "H_C12_closure", 0, n, fmt.Sprintf("closure clauses on F(%d)", n), "quick")
+	}
+	for _, i := range []int64{5, 6, 8, 10, 11, 12, 13, 14, 15} {
+		cm(c12, "H_C12_closure", 1, i, fmt.Sprintf("closure clauses on TL[%d]", i), "quick")
+	}
+	cm(c12, "H_C12_closure", 1, 42, "closure clauses on TL[42]", "thorough")
+	cm(c12, "H_C12_closure", 1, 58, "closure clauses on TL[58]", "thorough")
+	cm(c12, "H_C12_closure", 0, 4, "closure clauses on F(4)", "thorough")
+	add(c12)
+
+	// ---- C18
+	c18 := &PropSpec{ID: "C18", Level: "model_checking", Assumptions: append([]string{"trees: the first root block / all root blocks of six fixed documents, and fully virtual trees of depth <= 2 (<= 9 nodes) or depth 3 (<= 5 nodes) whose child counts are solver variables; every Pre/Post return value and the nil-ness of Pre and Post are solver variables"}, commonAssumptions...), QuickSec: 170, ThoroughSec: 1500,
+		Explanation: "bounded symbolic execution of Walk with callbacks returning solver-chosen booleans; the recorded event trace (with cursor contents) is replayed against a recursive reference walker driven by the same decisions"}
+	for d := int64(0); d < 6; d++ {
+		cm(c18, "H_C18", 0, d, fmt.Sprintf("real tree of document %d, all callback policies", d), "quick")
+		cm(c18, "H_C18", 1, d, fmt.Sprintf("virtual root over the root blocks of document %d (custom ChildCount/Child), all policies", d), "quick")
+	}
+	cm(c18, "H_C18", 2, 1, "virtual trees of depth 1, all shapes and policies", "quick")
+	cm(c18, "H_C18", 2, 2, "virtual trees of depth 2 (<= 9 nodes), all shapes and policies", "quick")
+	cm(c18, "H_C18", 2, 53, "virtual trees of depth 3 with <= 5 nodes, all shapes and policies", "quick")
+	cm(c18, "H_C18", 2, 63, "virtual trees of depth 3 with <= 6 nodes", "thorough")
+	cm(c18, "H_C18", 2, 73, "virtual trees of depth 3 with <= 7 nodes", "thorough")
+	add(c18)
 	return m
 }
